@@ -145,6 +145,33 @@ func main() {
 			return
 		}
 		extra["build_configs"] = cfgNames
+		if notes := renameNotes(); len(notes) > 0 {
+			extra["names_identified_with_recorded_ones"] = notes
+		}
+		// Thorough tier: non-vacuity of the rules on the tree as it is now. Every
+		// registered mutant (a single edit of /repo, applied in memory) is analysed
+		// and must be reported by the rule it targets; benign variants must stay
+		// silent. The outcome is evidence about the check, not a verdict on /repo:
+		// it never changes the exit status.
+		if *tier == "thorough" && *mutant == "" && !*noEvidence && len(mutantsFor(*prop)) > 0 {
+			res := runMutants(*prop, *verif)
+			sum := map[string]int{}
+			var notOK []string
+			for _, m := range res {
+				sum[m.Outcome]++
+				if m.Outcome != "killed" && m.Outcome != "silent" && m.Outcome != "inapplicable" {
+					notOK = append(notOK, m.Name+": "+m.Outcome)
+				}
+			}
+			extra["mutants_analysed"] = len(res)
+			extra["mutant_outcomes"] = sum
+			if len(notOK) > 0 {
+				extra["mutants_not_reported"] = notOK
+				fmt.Printf("SELFTEST: %d of %d mutants were not reported as expected: %s\n", len(notOK), len(res), strings.Join(notOK, "; "))
+			} else {
+				fmt.Printf("SELFTEST: %d mutants analysed, outcomes %v\n", len(res), sum)
+			}
+		}
 		if *noEvidence {
 			exit = c.FinishNoEvidence(*verif)
 			return
